@@ -271,7 +271,7 @@ srv_harness! { #[kani::unwind(4)] fn c15_policy_v3() { let r = policy_plain(0x1B
 srv_harness! { #[kani::unwind(4)] fn c15_policy_v4_mac() { let r = policy_plain(0xE3, 52, 0, 0, 0); covers_policy(&r); } }
 srv_harness! { #[kani::unwind(4)] fn c15_policy_v3_mac() { let r = policy_plain(0x5B, 52, 0, 0, 0); covers_policy(&r); } }
 srv_harness! { #[kani::unwind(4)] fn c15_policy_v6() { let r = policy_plain(0xA3, 48, 0, 1, 2); covers_policy(&r); covers_v6(&r); } }
-srv_harness! { #[kani::unwind(17)] #[kani::stub(<std::hash::DefaultHasher as std::hash::Hasher>::finish, crate::common::hasher_finish_model)] fn c15_policy_ratelimit() { let r = policy_plain(0x23, 48, 1, 0, 2); covers_policy(&r); covers_cache(&r); } }
+srv_harness! { #[kani::unwind(4)] #[kani::stub(<std::hash::DefaultHasher as std::hash::Hasher>::finish, crate::common::hasher_finish_model)] fn c15_policy_ratelimit() { let r = policy_plain(0x23, 48, 1, 0, 2); covers_policy(&r); covers_cache(&r); } }
 
 /// Datagrams that must be ignored whatever the policy: every (first byte, length) pair of the
 /// list is tried with symbolic contents against the same symbolic policy (cache size 0).
@@ -334,32 +334,89 @@ fn reject_list_modes(vn: u8) {
 srv_harness! {
     #[kani::unwind(9)]
     fn c15_reject_versions() {
-        // version field 0,1,2,6,7 (client mode) and NTPv5 (modes 3 and 4; no draft identification fits)
-        reject_list(&[0x03, 0x0B, 0x13, 0x33, 0x3B, 0x2B, 0x2C], &[48, 52]);
+        // version field 0,1,2,6,7 (client mode)
+        reject_list(&[0x03, 0x0B, 0x13, 0x33, 0x3B], &[48, 52]);
+    }
+}
+srv_harness! {
+    #[kani::unwind(9)]
+    fn c15_reject_v5() {
+        // NTPv5 header alone (request and response mode): no draft identification => ignored
+        reject_list(&[0x2B, 0x2C], &[48]);
     }
 }
 srv_harness! {
     #[kani::unwind(9)]
     fn c15_reject_trailing() {
         // 1..3 trailing bytes after the header: neither a MAC nor an extension field
-        reject_list(&[0x1B, 0x23, 0x2B], &[49, 50, 51]);
+        reject_list(&[0x1B, 0x23], &[49, 50, 51]);
     }
 }
 
+/// The same rejections through the whole `Server::handle` (daemon call shape) under the two
+/// concrete policies that would otherwise answer (everybody allowed => time; client on the deny
+/// list with action deny => DENY kiss): cheap per call, so many (first byte, length) pairs fit
+/// into one harness. `b0s` empty = symbolic first byte.
+#[cfg(kani)]
+fn reject_wire(b0s: &[u8], lens: &[usize]) {
+    let mut msg: [u8; 60] = kani::any();
+    let info = any_server_info();
+    any_dispersion();
+    let now: u64 = kani::any();
+    let recv: u64 = kani::any();
+    let mut c = 0;
+    while c < 2 {
+        let class = if c == 0 { crate::c16::Class::Time } else { crate::c16::Class::DenyList };
+        let cfg = crate::c16::class_cfg(class, crate::c16::ALL_VERSIONS);
+        let mut server = build_server(&cfg, SymClock { now: tt::ts_from_raw(now) }, info, zero_keyset());
+        let n_b0 = if b0s.is_empty() { 1 } else { b0s.len() };
+        let mut i = 0;
+        while i < n_b0 {
+            if !b0s.is_empty() {
+                msg[0] = b0s[i];
+            }
+            let mut j = 0;
+            while j < lens.len() {
+                let len = lens[j];
+                let mut stats = RecStats::new();
+                let mut send_buf = [0u8; 60];
+                let act = server.handle(IpAddr::V4(Ipv4Addr::new(192, 0, 2, 1)), tt::ts_from_raw(recv), &msg[..len], &mut send_buf[..len], &mut stats);
+                assert!(matches!(act, ServerAction::Ignore), "C15: malformed / non-client / unknown-version datagrams are never answered");
+                assert!(stats.calls == 1 && stats.response == ServerResponse::Ignore && stats.reason == ServerReason::ParseError && !stats.nts, "C21: recorded once as (ParseError, Ignore)");
+                let vn = if len > 0 { (msg[0] >> 3) & 7 } else { 0 };
+                assert!(stats.version == vn, "C21: recorded version is the datagram's version field");
+                j += 1;
+            }
+            i += 1;
+        }
+        std::mem::forget(server);
+        c += 1;
+    }
+    kani::cover!(msg[1] == 7, "contents symbolic");
+}
+
+srv_harness! {
+    #[kani::unwind(15)]
+    fn c15_reject_short() {
+        // lengths below a header (sample incl. both ends), symbolic first byte (any version, any mode)
+        reject_wire(&[], &[0, 1, 2, 3, 4, 8, 16, 24, 32, 40, 44, 46, 47]);
+    }
+}
 srv_harness! {
     #[kani::unwind(49)]
-    fn c15_reject_short() {
-        // every length below a header, symbolic first byte (any version, any mode)
-        let mut s = any_sym(0, 0, 2);
-        let msg: [u8; 60] = kani::any();
-        let mut len = 0usize;
-        while len < 48 {
-            let (exp, _, _, _) = policy_call!(s, &msg[..len], false, None);
-            assert!(matches!(exp, Expect::Silent(_)), "oracle: short datagrams are silent");
-            len += 1;
-        }
-        kani::cover!(!s.cfg.in_deny(s.client) && s.cfg.in_allow(s.client) && s.cfg.n_versions == 3 && msg[0] == 0x23, "allowed client, client mode, accepted version: short datagram ignored");
-        std::mem::forget(s);
+    fn c15_reject_short_all() {
+        // every length 0..=47, symbolic first byte
+        reject_wire(&[], &[0, 1, 2, 3, 4, 5, 6, 7, 8, 9, 10, 11, 12, 13, 14, 15, 16, 17, 18, 19, 20, 21, 22, 23, 24, 25, 26, 27, 28, 29, 30, 31, 32, 33, 34, 35, 36, 37, 38, 39, 40, 41, 42, 43, 44, 45, 46, 47]);
+    }
+}
+srv_harness! {
+    #[kani::unwind(15)]
+    fn c15_reject_wire() {
+        // non-client modes of v3/v4 (48 and 52 bytes), unknown versions, NTPv5 header alone,
+        // 1..3 trailing bytes
+        reject_wire(&[0x18, 0x19, 0x1A, 0x1C, 0x1D, 0x1E, 0x1F, 0x20, 0x21, 0x22, 0x24, 0x25, 0x26, 0x27], &[48, 52]);
+        reject_wire(&[0x03, 0x0B, 0x13, 0x33, 0x3B, 0x2B, 0x2C], &[48]);
+        reject_wire(&[0x1B, 0x23], &[49, 50, 51]);
     }
 }
 
@@ -398,11 +455,7 @@ pub fn nts_template(msg: &mut [u8; 160], layout: u8, b0: u8) -> usize {
             msg[14] = 0;
             msg[15] = 0;
             put_ef_header(msg, 48, 0xF5FF, 27);
-            let mut i = 0;
-            while i < 23 {
-                msg[52 + i] = DRAFT[i];
-                i += 1;
-            }
+            put_draft_id(msg, 52);
             put_ef_header(msg, 76, 0x0404, 32);
             108
         }
@@ -521,5 +574,45 @@ srv_harness! {
         let out = nts_nonclient(false, 0x23);
         assert!(out.kind == Some(Kind::NakKiss) && out.resp_len == 48, "C15: undecryptable NTS request from an allowed client gets the NAK");
         kani::cover!(out.kind == Some(Kind::NakKiss), "NAK sent");
+    }
+}
+
+/// Policy half only, concrete datagram (layout A, first byte `b0`, all other bytes zero), everybody
+/// allowed, versions {V4}: what does `handle_inner` decide?
+#[cfg(kani)]
+fn nts_nonclient_inner(b0: u8) -> Option<ServerResponse> {
+    let mut msg = [0u8; 160];
+    let len = nts_template(&mut msg, 0, b0);
+    let info = server_info(2, [127, 0, 0, 1], NtpDuration::from_exponent(-18), NtpDuration::ZERO, NtpLeapIndicator::NoWarning, tt::ts_from_raw(0));
+    let mut cfg = crate::c16::class_cfg(crate::c16::Class::Time, [NtpVersion::V4; 3]);
+    cfg.n_versions = 1;
+    let mut server = build_server(&cfg, SymClock { now: tt::ts_from_raw(0x1234_5678_0000_0000) }, info, zero_keyset());
+    let mut stats = RecStats::new();
+    let r = sh::server_handle_inner(&mut server, IpAddr::V4(Ipv4Addr::new(192, 0, 2, 1)), tt::ts_from_raw(0x1234_5677_0000_0000), &msg[..len], &mut stats);
+    let out = match &r {
+        Ok(d) => Some(d.action),
+        Err(_) => None,
+    };
+    std::mem::forget(r);
+    std::mem::forget(server);
+    out
+}
+
+srv_harness! {
+    #[kani::unwind(2)]
+    fn c15_nts_inner_kf_nonclient_nak() {
+        // EXPECTED TO FAIL on the unchanged tree: server-mode (4) datagram with an undecryptable
+        // NTS field: the policy half prepares an NTS NAK instead of ignoring it.
+        let out = nts_nonclient_inner(0x24);
+        assert!(out.is_none(), "C15: a datagram that is not in client mode is never answered");
+    }
+}
+
+srv_harness! {
+    #[kani::unwind(2)]
+    fn c15_nts_inner_client_nak() {
+        let out = nts_nonclient_inner(0x23);
+        assert!(out == Some(ServerResponse::NTSNak), "C15: undecryptable NTS request from an allowed client gets the NAK, never time");
+        kani::cover!(out == Some(ServerResponse::NTSNak), "NAK prepared");
     }
 }
